@@ -519,6 +519,12 @@ class WsgiApplication(HttpBase):
         try:
             self.get_out_string(p_ctx)
 
+            if not self.chunked:
+                # the response is sent in one piece: put it together here so
+                # that a failure of user code that is still producing it is
+                # answered like any other.
+                p_ctx.out_string = [b''.join(p_ctx.out_string)]
+
         except Exception as e:
             if len(user_errors) > 0 and isinstance(user_errors[0], Fault):
                 # the user generator raised a Fault after its first yield
